@@ -640,8 +640,8 @@ func chainCase(run *sim.Run, caseID int) {
 	run.Count("chain:token-class:"+class, 1)
 	sum := sha256.Sum256([]byte(fmt.Sprint(h.sig)))
 	run.Distinct(fmt.Sprintf("chain-history|%x", sum))
-	if caseID < 2 {
-		run.Sample(map[string]any{"layer": "chain", "case": caseID, "validators": nVals, "token_class": class, "chain_id": chainID,
+	if caseID < 4 {
+		samples.offer("chain", caseID, map[string]any{"layer": "chain", "case": caseID, "validators": nVals, "token_class": class, "chain_id": chainID,
 			"sampling_try_count_at_genesis": tries, "requests": h.reqs, "observed": h.samples})
 	}
 }
